@@ -95,7 +95,7 @@ func registerAll() {
 
 func TestPropProjects(t *testing.T) {
 	registerAll()
-	ev.Rapid(t, "projects", ev.N(3000, 40000), func(t *rapid.T) Case { return Case{P: genProject(t)} }, judged)
+	ev.Rapid(t, "projects", ev.N(12000, 40000), func(t *rapid.T) Case { return Case{P: genProject(t)} }, judged)
 }
 
 // decimalLiterals: -?d{1,n}(\.d{1,n})? over the given digits (no superfluous leading zeros)
@@ -279,7 +279,7 @@ func spellingOracle(sp Spelling) *ev.Verdict {
 
 func TestPropSpellings(t *testing.T) {
 	registerAll()
-	ev.Rapid(t, "spellings", ev.N(1500, 15000), func(t *rapid.T) Spelling {
+	ev.Rapid(t, "spellings", ev.N(4000, 15000), func(t *rapid.T) Spelling {
 		n := gen.Scalar(t, gen.ScalarOpts{NoRefs: true}, "sp")
 		return Spelling{Lit: n.Lit, Kind: n.Kind, Rules: n.Rules}
 	}, func(sp Spelling) *ev.Verdict {
